@@ -118,6 +118,10 @@ impl Calibrations {
     }
 }
 
+/// The deepest nesting of calibrations within calibrations that expansion will follow before it
+/// gives up and reports the instruction at that depth as (presumably endlessly) recursive.
+const MAX_CALIBRATION_EXPANSION_DEPTH: usize = 128;
+
 struct MatchedCalibration<'a> {
     pub calibration: &'a CalibrationDefinition,
     pub fixed_qubit_count: usize,
@@ -488,6 +492,15 @@ impl Calibrations {
             }
             _ => None,
         };
+
+        // A calibration whose body re-invokes it with an ever-changing parameter (for example
+        // `DEFCAL RX(%t) 0: RX(%t+1) 0`) never repeats an instruction, so the check above cannot
+        // catch it; bound the nesting depth instead of overflowing the stack.
+        if expansion_result.is_some()
+            && previous_calibrations.len() >= MAX_CALIBRATION_EXPANSION_DEPTH
+        {
+            return Err(ProgramError::RecursiveCalibration(instruction.clone()));
+        }
 
         // Add this instruction to the breadcrumb trail before recursion
         let mut calibration_path = Vec::with_capacity(previous_calibrations.len() + 1);
